@@ -339,35 +339,45 @@ func (fr *FuncRun) loopOrdinal(f *Frame, head *ssa.BasicBlock) int {
 	return 0
 }
 
+// scoutLoop executes the loop body once in scouting mode from state `from`.
+func (fr *FuncRun) scoutLoop(f *Frame, head *ssa.BasicBlock, body map[*ssa.BasicBlock]bool, from *State, order []*ssa.BasicBlock, bodies map[*ssa.BasicBlock]map[*ssa.BasicBlock]bool) (*WriteSet, []*State) {
+	ws := newWriteSet()
+	fr.wsStack = append(fr.wsStack, ws)
+	fr.scout++
+	savedHead, savedBack := fr.scoutingHead, fr.backStates
+	fr.scoutingHead, fr.backStates = head, nil
+	savedRegs := f.regs
+	f.regs = map[ssa.Value]Val{}
+	for k, v := range savedRegs {
+		f.regs[k] = v
+	}
+	savedFreshW, savedOldW := fr.freshHeapWrites, fr.oldHeapWrites
+	fr.freshHeapWrites, fr.oldHeapWrites = map[string]bool{}, map[string]bool{}
+	savedTop := fr.allocTop
+	savedMutexes := fr.mutexes
+	mk := fr.mark()
+	fr.runRegion(f, order, body, head, from.clone(), bodies)
+	fr.rollback(mk)
+	fr.mutexes = savedMutexes
+	fr.allocTop = savedTop
+	fr.freshHeapWrites, fr.oldHeapWrites = savedFreshW, savedOldW
+	back := fr.backStates
+	f.regs = savedRegs
+	fr.scoutingHead, fr.backStates = savedHead, savedBack
+	fr.scout--
+	fr.wsStack = fr.wsStack[:len(fr.wsStack)-1]
+	return ws, back
+}
+
 func (fr *FuncRun) enterLoop(f *Frame, head *ssa.BasicBlock, body map[*ssa.BasicBlock]bool, cur *State, order []*ssa.BasicBlock, bodies map[*ssa.BasicBlock]map[*ssa.BasicBlock]bool) {
+	w := fr.w
 	// 1. invariants hold on entry
 	fr.checkInvariants(f, head, cur, "inv-entry")
-	// 2. scout the body for its write set; iterate the slice-freshness flags to a fixpoint
+	// 2. pass A: write set; iterate the slice-freshness flags of loop-carried cells to a fixpoint
 	var ws *WriteSet
 	for iter := 0; iter < 5; iter++ {
-		ws = newWriteSet()
-		fr.wsStack = append(fr.wsStack, ws)
-		fr.scout++
-		savedHead, savedBack := fr.scoutingHead, fr.backStates
-		fr.scoutingHead, fr.backStates = head, nil
-		savedRegs := f.regs
-		f.regs = map[ssa.Value]Val{}
-		for k, v := range savedRegs {
-			f.regs[k] = v
-		}
-		savedFreshW, savedOldW := fr.freshHeapWrites, fr.oldHeapWrites
-		fr.freshHeapWrites, fr.oldHeapWrites = map[string]bool{}, map[string]bool{}
-		sc := cur.clone()
-		fr.runRegion(f, order, body, head, sc, bodies)
-		scFresh, scOld := fr.freshHeapWrites, fr.oldHeapWrites
-		fr.freshHeapWrites, fr.oldHeapWrites = savedFreshW, savedOldW
-		_ = scFresh
-		_ = scOld
-		back := fr.backStates
-		f.regs = savedRegs
-		fr.scoutingHead, fr.backStates = savedHead, savedBack
-		fr.scout--
-		fr.wsStack = fr.wsStack[:len(fr.wsStack)-1]
+		var back []*State
+		ws, back = fr.scoutLoop(f, head, body, cur, order, bodies)
 		changed := false
 		for c := range ws.cells {
 			v, ok := cur.cells[c]
@@ -399,38 +409,107 @@ func (fr *FuncRun) enterLoop(f *Frame, head *ssa.BasicBlock, body map[*ssa.Basic
 	}
 	// 3. havoc the write set
 	pre := cur.clone()
+	topAtEntry := fr.allocTop
+	newTop := fr.fresh(sInt, "alloctop")
+	fr.emit(fmt.Sprintf("(assert (>= %s %s))", newTop, topAtEntry))
+	fr.allocTop = newTop
+	marker := fr.nfresh
 	var hs []string
 	for h := range ws.heaps {
 		hs = append(hs, h)
 	}
 	sort.Strings(hs)
 	for _, h := range hs {
-		old := fr.heapCur(cur, h)
-		cur.heaps[h] = fr.fresh(fr.w.heapSorts[h], h)
-		if !ws.oldHeaps[h] && strings.HasPrefix(fr.w.heapSorts[h], "(Array Int ") {
-			// every write in the loop body targets objects allocated in this run: entry-state objects keep their content
-			a := fr.freshName("a")
-			fr.assume(cur, fmt.Sprintf("(forall ((%s Int)) (=> (oldaddr %s) (= (select %s %s) (select %s %s))))", a, a, cur.heaps[h], a, old, a))
-		}
+		cur.heaps[h] = fr.freshHeap(h)
 	}
+	excl := map[string][]string{} // heap -> addresses that may be written although allocated before the loop
 	var cs []cellKey
 	for c := range ws.cells {
 		cs = append(cs, c)
 	}
 	sort.Slice(cs, func(i, j int) bool { return fmt.Sprint(cs[i]) < fmt.Sprint(cs[j]) })
 	for _, c := range cs {
-		if old, ok := cur.cells[c]; ok {
-			nv := Val{T: fr.fresh(old.S, "lv"), S: old.S, FreshArr: old.FreshArr}
-			cur.cells[c] = nv
-			if t := cellType(c); t != nil {
-				fr.rangeAssume(cur, nv.T, t)
-			}
-			if nv.FreshArr && nv.S == sSlice {
-				fr.assume(cur, fmt.Sprintf("(or (= (s-arr %s) 0) (> (s-arr %s) AllocBase))", nv.T, nv.T))
+		old, ok := cur.cells[c]
+		if !ok {
+			continue
+		}
+		nv := Val{T: fr.fresh(old.S, "lv"), S: old.S, FreshArr: old.FreshArr}
+		cur.cells[c] = nv
+		if al, isAlloc := c.v.(*ssa.Alloc); isAlloc && al.Comment == "rangeindex" {
+			// the hidden index of a range loop starts at -1 and is only ever incremented
+			fr.assume(cur, "(>= "+nv.T+" (- 1))")
+		}
+		if t := cellType(c); t != nil {
+			fr.rangeAssume(cur, nv.T, t)
+			if st, isSlice := t.Underlying().(*types.Slice); isSlice && nv.FreshArr {
+				fr.assume(cur, fmt.Sprintf("(or (= (s-arr %s) 0) (and (> (s-arr %s) AllocBase) (<= (s-arr %s) %s)))", nv.T, nv.T, nv.T, newTop))
+				eh := w.ElemHeap(st.Elem())
+				excl[eh] = append(excl[eh], "(s-arr "+old.T+")")
 			}
 		}
 	}
-	// 4. assume invariants
+	// 4. pass B: which addresses of each heap are written by one (generic) iteration
+	savedLog, savedCellLog := fr.addrLog, fr.cellLog
+	fr.addrLog, fr.cellLog = map[string][]addrWrite{}, map[cellKey][]Val{}
+	fr.scoutLoop(f, head, body, cur, order, bodies)
+	alog, clog := fr.addrLog, fr.cellLog
+	fr.addrLog, fr.cellLog = savedLog, savedCellLog
+	for c, vals := range clog {
+		t := cellType(c)
+		if t == nil {
+			continue
+		}
+		if st, isSlice := t.Underlying().(*types.Slice); isSlice {
+			eh := w.ElemHeap(st.Elem())
+			for _, v := range vals {
+				a := "(s-arr " + v.T + ")"
+				if invariantTerm(a, marker) {
+					excl[eh] = append(excl[eh], a)
+				}
+			}
+		}
+	}
+	for _, h := range hs {
+		if !strings.HasPrefix(w.heapSorts[h], "(Array Int ") {
+			continue
+		}
+		framed := true
+		var inv []string
+		seen := map[string]bool{}
+		for _, aw := range alog[h] {
+			if invariantTerm(aw.term, marker) {
+				if !seen[aw.term] {
+					seen[aw.term] = true
+					inv = append(inv, aw.term)
+				}
+				continue
+			}
+			if !aw.fresh {
+				framed = false
+				break
+			}
+		}
+		if len(alog[h]) == 0 && ws.oldHeaps[h] {
+			// written only inside a callee under contract (whole-heap havoc): no frame
+			framed = false
+		}
+		if !framed || len(inv)+len(excl[h]) > 12 {
+			continue
+		}
+		for _, a := range excl[h] {
+			if !seen[a] {
+				seen[a] = true
+				inv = append(inv, a)
+			}
+		}
+		a := fr.freshName("a")
+		conds := []string{fmt.Sprintf("(or (and (> %s 0) (<= %s %s)) (and (< %s 0) (<= (fa_root %s) %s)))", a, a, topAtEntry, a, a, topAtEntry)}
+		for _, x := range inv {
+			conds = append(conds, "(not (= "+a+" "+x+"))")
+		}
+		fr.assume(cur, fmt.Sprintf("(forall ((%s Int)) (=> %s (= (select %s %s) (select %s %s))))", a, and(conds...), cur.heaps[h], a, fr.heapCur(pre, h), a))
+	}
+	// 5. assume invariants
 	fr.assumeInvariants(f, head, cur, pre)
 }
 
@@ -457,8 +536,7 @@ func (fr *FuncRun) val(f *Frame, st *State, v ssa.Value) Val {
 		name := "glob_" + sanitize(x.String())
 		fr.w.declFun(name, fmt.Sprintf("(declare-fun %s () Int)", name))
 		key := "glob:" + name
-		if !fr.assumed[key] {
-			fr.assumed[key] = true
+		if fr.once(key) {
 			fr.emit(fmt.Sprintf("(assert (> %s 0))", name))
 		}
 		return Val{T: name, S: sInt, Addr: ObjAddr{Ref: name, Elem: x.Type().(*types.Pointer).Elem(), NonNil: true}}
@@ -819,7 +897,7 @@ func (fr *FuncRun) execIndexAddr(f *Frame, st *State, x *ssa.IndexAddr) {
 	case *types.Slice:
 		sv := fr.val(f, st, x.X)
 		fr.assertOb(st, "index", exprText(x.X)+"["+exprText(x.Index)+"]", and("(<= 0 "+iv.T+")", "(< "+iv.T+" (s-len "+sv.T+"))"), x.Pos(), "slice index out of range")
-		a := ElemOf{Arr: fr.def(sInt, "(s-arr "+sv.T+")"), Idx: fr.def(sInt, "(+ (s-off "+sv.T+") "+iv.T+")"), Elem: ct.Elem(), Fresh: sv.FreshArr}
+		a := ElemOf{Arr: fr.def(sInt, "(s-arr "+sv.T+")"), Off: "(s-off " + sv.T + ")", I: iv.T, Idx: fr.def(sInt, "(+ (s-off "+sv.T+") "+iv.T+")"), Elem: ct.Elem(), Fresh: sv.FreshArr}
 		f.regs[x] = Val{T: "0", S: sInt, Addr: a}
 	case *types.Pointer:
 		at := ct.Elem().Underlying().(*types.Array)
@@ -886,7 +964,11 @@ func (fr *FuncRun) execSlice(f *Frame, st *State, x *ssa.Slice) {
 		fr.heapSet(st, eh, sto(fr.heapCur(st, eh), ref, arr.T))
 		fr.curWriteFresh = false
 		fr.assumed["abstraction: slice of array copies (no aliasing with the array)"] = true
-		f.regs[x] = Val{T: fr.def(sSlice, fmt.Sprintf("(mk-slice %s %s (- %s %s) (- %d %s))", ref, lo, hi, lo, at.Len(), lo)), S: sSlice, FreshArr: true}
+		rv := Val{T: fr.def(sSlice, fmt.Sprintf("(mk-slice %s %s (- %s %s) (- %d %s))", ref, lo, hi, lo, at.Len(), lo)), S: sSlice, FreshArr: true}
+		if x.Low == nil && x.High == nil {
+			rv.ArrBack, rv.ArrLen = base, at.Len()
+		}
+		f.regs[x] = rv
 	default:
 		fr.errorf("outside subset: Slice on %s", x.X.Type())
 	}
@@ -912,8 +994,7 @@ func (fr *FuncRun) makeInterface(st *State, v Val, t types.Type) Val {
 	box, unbox := w.Box(t)
 	bt := fr.def(sInt, "("+box+" "+v.T+")")
 	key := "box:" + bt
-	if !fr.assumed[key] {
-		fr.assumed[key] = true
+	if fr.once(key) {
 		fr.emit(fmt.Sprintf("(assert (= (%s %s) %s))", unbox, bt, v.T))
 	}
 	return Val{T: fr.def(sIface, fmt.Sprintf("(mk-iface %d %s)", id, bt)), S: sIface}
